@@ -159,17 +159,17 @@ def parse_result(ops, line):
             m = EV.match(t)
             if m:
                 loc = 0 if m.group(3) == 'T' else 1 if m.group(3) == 'B' else 2 + int(m.group(3)[1:])
-                evs += [CODE[m.group(1)], int(m.group(2)), 2 * loc + (0 if m.group(4) else 1)]
+                evs.append(CODE[m.group(1)] + 16 * (2 * loc + (0 if m.group(4) else 1)) + 512 * (int(m.group(2)) + 1))
                 continue
             m = AL.match(t)
             if m:
-                evs += [CODE[m.group(1)], int(m.group(2)), 1]
+                evs.append(CODE[m.group(1)] + 16 + 512 * (int(m.group(2)) + 1))
                 continue
             if k == 0 and o[0] in 'Kk' and re.match(r'^(I|S\d+|\?)$', t):
                 disp = 0 if t == 'I' else -1 if t == '?' else int(t[1:])
                 continue
             return None
-        flat += [disp, len(evs) // 3] + evs
+        flat += [disp, len(evs)] + evs
     return flat, [int(x) for x in right.split()]
 
 
@@ -209,7 +209,7 @@ def run(ctx):
         ctx.broken.append('harness grid query failed / buf_ is not at offset 0 of OnceFunction: ' + out[:200])
         return
     grid = [tuple(int(x) for x in t.split(':')) for t in m.group(1).split()]
-    cases = gen_cases(ctx, grid, 260 if ctx.quick else 6000)
+    cases = gen_cases(ctx, grid, 220 if ctx.quick else 2500)
     lines = [' '.join([tok(o) for o in ops] + ([';'] + cl if cl else [])) for ops, cl in cases]
     outs = pf_common.run_harness(exe, lines)
     terms, kept = [], []
